@@ -13,11 +13,12 @@ def _legs(tier):
     th = tier == "thorough"
     direct = [("Sessions_MC", "Sessions_GenSets.cfg"), ("Sessions_MC", "Sessions_GenHist.cfg")]
     client = [("Sessions_MC", "Sessions_GenCliSets.cfg"), ("Sessions_MC", "Sessions_GenCli.cfg")]
-    rc = [("Sessions_MC", "Sessions_GenRc.cfg"), ("Sessions_MC", "Sessions_GenRcBy.cfg")]
+    rc = [("Sessions_MC", "Sessions_GenRc.cfg"), ("Sessions_MC", "Sessions_GenRcBy.cfg"),
+          ("Sessions_MC", "Sessions_GenRcF.cfg")]
     if th:
         direct += [("Sessions_MC", "Sessions_GenHistT.cfg"), ("Sessions_MC", "Sessions_GenHist3.cfg")]
         client += [("Sessions_MC", "Sessions_GenCliT.cfg")]
-        rc = [("Sessions_MC", "Sessions_GenRcT.cfg")]
+        rc = [("Sessions_MC", "Sessions_GenRcT.cfg"), ("Sessions_MC", "Sessions_GenRcF.cfg")]
     tr = ("Sessions_Trace", "Sessions_Trace.cfg")
     return [
         {"name": "select-direct", "driver": "sessions", "args": ["-mode", "select-direct"], "gen": direct, "trace": tr},
